@@ -2,10 +2,12 @@
 from checks import decoder_units as D
 from checks.decoder_common import run_property
 
+SEED = [0]
+
 
 def jobs(tier):
     m = ("strict", "warn")
-    return D.g_pump(m) + D.g_leaf(("strict",), deep=0) + [j for j in D.g_frames(("strict",)) if j[0].__name__ == "unit_stream"]
+    return D.g_pump(m) + D.g_leaf(("strict",), deep=0) + [j for j in D.g_frames(("strict",)) if j[0].__name__ == "unit_stream"] + D.g_crosscheck(tier, SEED[0], only_frames=True)
 
 
 def keep(name, ob):
@@ -13,6 +15,7 @@ def keep(name, ob):
 
 
 def run(tier, seed, only=None):
+    SEED[0] = seed
     from checks.replay_decoder import replayer
     return run_property("C05", tier, seed, jobs(tier), keep,
                         "the real marshal() interpreted against an abstract processor (every send may answer Need / Emit / Done / Fail) and an abstract byte source, both loops by the invariant rule: input ending on a Need gives Depleted(command_code) after all events, Done with bytes left gives Superfluous with exactly the unread suffix, a clean end at a root event only for streams; the leaf contract places every field's event directly after its last byte",
